@@ -165,6 +165,53 @@ func runC05(c *core.Ctx) {
 		calls := callsMatching(fn, pkg, "", "encodeNodeAndCommitToDB")
 		c.Check(len(calls) > 0, "C05/persist-only-under-content-hash", a[0]+"."+a[1], fn.Pos(), "persists received nodes through encodeNodeAndCommitToDB", "the syncer no longer persists through encodeNodeAndCommitToDB")
 	}
+	// frontier: a node leaves the work set only together with the recording of ALL its missing children
+	if fn := anchorM(c, pkg, "doubleListTrieSyncer", "processExistingNodes"); fn != nil {
+		var del ssa.Instruction
+		for _, in := range core.CallsIn(fn, func(in ssa.Instruction, cc *ssa.CallCommon) bool {
+			return core.CallDesc(cc).Is("builtin", "", "delete") && isFieldOf(cc.Args[0], "existingNodes")
+		}) {
+			del = in
+		}
+		var inner *core.Loop
+		for _, l := range core.Loops(fn) {
+			if src := l.RangeSource(); src != nil {
+				if ex, ok := src.(*ssa.Extract); ok && ex.Index == 0 {
+					if call, ok := ex.Tuple.(*ssa.Call); ok && isInvoke(&call.Call, "loadChildren") {
+						inner = l
+					}
+				}
+			}
+		}
+		if del == nil || inner == nil {
+			c.Fail("C05/frontier-recorded-before-drop", "doubleListTrieSyncer.processExistingNodes", fn.Pos(), "the removal from existingNodes or the loop recording the missing children hashes was not found")
+		} else {
+			records := false
+			core.Instrs(fn, func(in ssa.Instruction) {
+				if mu, ok := in.(*ssa.MapUpdate); ok && inner.Body[mu.Block()] && isFieldOf(mu.Map, "missingHashes") {
+					records = true
+				}
+			})
+			exh := map[[2]int]bool{}
+			for i, s2 := range inner.Header.Succs {
+				if !inner.Body[s2] {
+					exh[[2]int{inner.Header.Index, i}] = true
+				}
+			}
+			outer := core.InnermostLoop(fn, del.Block())
+			q := core.PathQ{Fn: fn, From: del, ViaEdge: func(b *ssa.BasicBlock, s2 int) bool { return exh[[2]int{b.Index, s2}] },
+				Target: func(in ssa.Instruction, _ *ssa.BasicBlock) bool {
+					if _, isRet := in.(*ssa.Return); isRet {
+						return true
+					}
+					return outer != nil && in == outer.Header.Instrs[0]
+				}}
+			esc, pth := q.Escape()
+			c.Check(esc == nil && records, "C05/frontier-recorded-before-drop", "doubleListTrieSyncer.processExistingNodes", del.Pos(),
+				"once a node is dropped from the work set, all its missing children hashes are recorded before the iteration ends",
+				"a node can be removed from existingNodes while the loop that records its missing children is skipped ("+c.P.PathString(pth)+"): those subtrees are never requested and the sync reports success with nodes missing")
+		}
+	}
 	c.Floor("C05/persist-only-under-content-hash", 3)
 	c.Floor("C05/received-node-hash-is-content-hash", 5)
 }
